@@ -10,9 +10,9 @@ THEOREMS = ["Mesa.Devs." + t for t in (
     "C14_clock_monotone", "C14_run_until_post", "C14_schedule_rejects_exactly", "C14_peek_is_execution_order",
     "C14_priority_order_generated", "C14_upfront_events_run_in_sorted_order", "C14_heapq_is_priority_queue",
     "C14_heap_refines_sorted_queue", "C14_spared_event_is_served", "C14_spared_event_is_served_rel",
-    "C14_spared_due_event_executed", "C14_spared_due_event_executed_rel", "C14_execution_order", "C14_execution_order_history", "C14_collected_never_executes",
+    "C14_spared_due_event_executed", "C14_spared_due_event_executed_rel", "C14_execution_order", "C14_execution_order_history", "C14_history_traces_are_histories", "C14_collected_never_executes",
     "C14_shared_callable_event_is_served", "C14_shared_due_event_executed", "C14_collected_callable_never_runs",
-    "C14_drop_kills_every_sharer", "C14_weakref_dead_iff_callable_dropped", "C14_run_until_aborted", "C14_raising_event_never_rerun", "C14_resume_after_exception")]
+    "C14_drop_kills_every_sharer", "C14_weakref_dead_iff_callable_dropped", "C14_run_until_aborted", "C14_run_next_aborted", "C14_raising_event_never_rerun", "C14_resume_after_exception")]
 COUNTS = {"quick": 600, "thorough": 200000}
 TRUSTED = [
     "heapq: no longer assumed — Model/Heap.lean transcribes Lib/heapq.py (heappush/heappop/_siftdown/_siftup), Proofs/Heap.lean proves it a priority queue for any strict weak order, Proofs/DevsHeap.lean proves the model's sorted list a sound abstraction of the heap array, and every check compares the transcription's array layout with CPython's heapq (the C accelerator _heapq is what actually runs); trusted: that EventList reaches its list only through heappush / heappop / iteration (read off the source)",
